@@ -288,16 +288,35 @@ class Analysis:
     def _store_loc(self, loc, new, st, frame):
         loc = self.canon_loc(loc, frame)
         if isinstance(loc, ast.Name):
-            if st.locals.get((frame.id, loc.id)) == new:
+            old = st.locals.get((frame.id, loc.id))
+            # a local that is a copy of a tracked field (`reservation = self._reserved_resources`) and still agrees with it: what is
+            # learnt about the local by a test is learnt about the field too
+            alias = None
+            if loc.id in self._alias_defs(frame):
+                d = self._alias_defs(frame)[loc.id]
+                if is_self_attr(d) and d.attr in self.tracked and st.fields.get(d.attr) == old:
+                    alias = d.attr
+            if old == new:
                 return st
             st = st.copy()
             st.locals[(frame.id, loc.id)] = new
+            if alias is not None:
+                st.fields[alias] = new
         elif is_self_attr(loc) and loc.attr in self.tracked:
             if st.fields.get(loc.attr) == new:
                 return st
             st = st.copy()
             st.fields[loc.attr] = new
         return st
+
+    def _alias_defs(self, frame):
+        c = getattr(self, '_alias_cache', None)
+        if c is None:
+            c = self._alias_cache = {}
+        if frame.id not in c:
+            from .norm import single_defs
+            c[frame.id] = {k: v for k, v in single_defs(frame.func).items() if is_self_attr(v)} if frame.func is not None else {}
+        return c[frame.id]
 
     def _is_boolish(self, loc):
         return is_self_attr(loc) and loc.attr in self.BOOL_FIELDS
